@@ -39,6 +39,10 @@ SIZE_MAP = {
     "dependency_files": ["dependency.dependencies"],
     "dependency_items": ["dependency.dependencies.items"],
     "diag_disabled": ["diagnostic.file_diagnostic_disabled"],
+    "type_generic_params": ["type.generic_params"],
+    "operator_operators": ["operator.operators", "operator.type_operators_map.items", "operator.in_filed_operator_map.items"],
+    "operator_owners": ["operator.type_operators_map"],
+    "operator_files": ["operator.in_filed_operator_map"],
 }
 
 
@@ -64,6 +68,8 @@ def model_of(step):
         "members": {t: [[m[0], path_of(m[1])] for m in ms] for t, ms in obs["members"].items()},
         "modules": {r: (None if p == "<none>" else path_of(p)) for r, p in obs["modules"].items()},
         "supers": {t: sorted(ss) for t, ss in obs["supers"].items()},
+        "gen": {t: list(ps) for t, ps in obs["gen"].items()},
+        "ops": {t: {mm: [[o[0], path_of(o[1])] for o in seq] for mm, seq in per.items()} for t, per in obs["ops"].items()},
         "sizes": real_sizes(step["sizes"]),
     }
 
@@ -73,7 +79,8 @@ def run_tlc_many(ctx, cfgs, workers_each, timeout):
     def one(cfg):
         return cfg, vlib.tlc("AnalysisDb", cfg, workers=workers_each, timeout=timeout,
                              metadir=os.path.join(ctx.work, "tlc_" + cfg))
-    with concurrent.futures.ThreadPoolExecutor(max_workers=len(cfgs)) as ex:
+    # at most 4 (quick) / 8 (thorough) TLC workers in total
+    with concurrent.futures.ThreadPoolExecutor(max_workers=max(1, min(len(cfgs), ctx.pick(4, 8) // workers_each))) as ex:
         return list(ex.map(one, cfgs))
 
 
@@ -152,7 +159,7 @@ def describe(hist):
 
 
 def gen_path(p):
-    p = re.sub(r"/ws/[abc]\.lua", "*", p)
+    p = re.sub(r"/ws/[abcd]\.lua", "*", p)
     p = re.sub(r"/\d+(?=/|$)", "/#", p)
     return p.strip("/")
 
@@ -179,8 +186,10 @@ def classify_same(diffs, full):
 
 
 def run(ctx, prop):
-    tier = {"C08": (["AnalysisDb_q", "AnalysisDb_q2", "AnalysisDb_q3", "AnalysisDb_q4"],
-                    ["AnalysisDb_t", "AnalysisDb_t2", "AnalysisDb_t3", "AnalysisDb_t4"]),
+    # q5/t5: generic partial class (header in one file, header-less re-declaration in another), generic alias, a user
+    # that instantiates both; q6/t6: operators / call overload of one class declared in two files and a user
+    tier = {"C08": (["AnalysisDb_q", "AnalysisDb_q2", "AnalysisDb_q3", "AnalysisDb_q4", "AnalysisDb_q5", "AnalysisDb_q6"],
+                    ["AnalysisDb_t", "AnalysisDb_t2", "AnalysisDb_t3", "AnalysisDb_t4", "AnalysisDb_t5", "AnalysisDb_t6"]),
             "C09": (["AnalysisDb_c09_q", "AnalysisDb_c09_q2"],
                     ["AnalysisDb_c09_t", "AnalysisDb_c09_t2", "AnalysisDb_c09_t3"]),
             "C10": (["AnalysisDb_c10_q", "AnalysisDb_c10_q2"],
